@@ -132,7 +132,9 @@ Inductive altst := ANone | APending (ready : bool) | AJar.
    user, who removes the entry); still dialling (a background AddConn dial to a port nobody answers on: it runs
    under context.Background and only ends with quic-go's own handshake timeout, > 5 s - every user meanwhile
    waits until its own deadline) *)
-Inductive t3st := T3None | T3Conn | T3Failed (e : errclass) | T3Dialing.
+Inductive t3st := T3None | T3Conn | T3Failed (e : errclass) | T3Dialing
+| T3Dead.  (* a connection the CLIENT considers established (its handshake completed) that the server has
+              closed: the client certificate is checked after the client's side of the TLS 1.3 handshake is done *)
 Record client := mkClient {
   c_tls   : option tlscfg;   (* Options.TLSClientConfig *)
   c_force : force;           (* Transport.forceHttpVersion *)
@@ -158,6 +160,12 @@ Definition with_tls o c := mkClient o (c_force c) (c_h3 c) (c_allow_http c) (c_p
 Definition with_force f c := mkClient (c_tls c) f (c_h3 c) (c_allow_http c) (c_plain_dialtls c) (c_udial c) (c_uhs c) (c_idle c) (c_idle1 c) (c_t2 c) (c_t3 c) (c_alt c) (c_bg c).
 Definition with_h3 b c := mkClient (c_tls c) (c_force c) b (c_allow_http c) (c_plain_dialtls c) (c_udial c) (c_uhs c) (c_idle c) (c_idle1 c) (c_t2 c) (c_t3 c) (c_alt c) (c_bg c).
 Definition with_h2c a p c := mkClient (c_tls c) (c_force c) (c_h3 c) a p None (c_uhs c) (c_idle c) (c_idle1 c) (c_t2 c) (c_t3 c) (c_alt c) (c_bg c).
+Definition with_allow a c := mkClient (c_tls c) (c_force c) (c_h3 c) a (c_plain_dialtls c) (c_udial c) (c_uhs c) (c_idle c) (c_idle1 c) (c_t2 c) (c_t3 c) (c_alt c) (c_bg c).
+(* EnableH2C / DisableH2C.  Pinned code: EnableH2C also installed a plain net.Dial in the DialTLSContext slot
+   (which every https connection of the client then used) and DisableH2C cleared the slot; repaired code: only the
+   http2 AllowHTTP flag changes, http:// requests are dialled plain by the http2 transport itself *)
+Definition set_h2c (b : bool) (c : client) : client :=
+  if h2c_installs_plain_dialtls then with_h2c b b c else with_allow b c.
 Definition with_idle i i1 c := mkClient (c_tls c) (c_force c) (c_h3 c) (c_allow_http c) (c_plain_dialtls c) (c_udial c) (c_uhs c) i i1 (c_t2 c) (c_t3 c) (c_alt c) (c_bg c).
 Definition with_t2 b c := mkClient (c_tls c) (c_force c) (c_h3 c) (c_allow_http c) (c_plain_dialtls c) (c_udial c) (c_uhs c) (c_idle c) (c_idle1 c) b (c_t3 c) (c_alt c) (c_bg c).
 Definition with_t3 x c := mkClient (c_tls c) (c_force c) (c_h3 c) (c_allow_http c) (c_plain_dialtls c) (c_udial c) (c_uhs c) (c_idle c) (c_idle1 c) (c_t2 c) x (c_alt c) (c_bg c).
@@ -225,6 +233,17 @@ Definition h3_dial (e : env) (c : client) : hs * dial :=
   (h, mk_dial S3 cfg h).
 Definition hs_err (h : hs) : errclass := match h with HsFail e => e | HsOk _ => EProto end.
 
+(* http3 RoundTripper.RoundTripOpt on an authority without entry: dial, then the request *)
+Definition rt_h3_fresh (e : env) (c : client) : res :=
+  let '(h, d) := h3_dial e c in
+  match h with
+  | HsOk _ => (Use V3, [d], with_t3 T3Conn c)
+  | HsFail EDial => (Fail EDial, [], with_t3 (T3Failed EDial) c)
+      (* nobody answers: the request's own deadline expires first (QUIC gives up after 10 s), RoundTripOpt
+         returns on ctx.Done() WITHOUT removeClient: the entry stays and hands its error to the next user *)
+  | HsFail er => (Fail er, [d], c)
+  end.
+
 (* http3 RoundTripper.RoundTripOpt; None = ErrNoCachedConn *)
 Definition rt_h3 (only_cached : bool) (e : env) (c : client) : option res :=
   if negb (e_https e) then Some (Fail EScheme, [], c) else
@@ -232,22 +251,23 @@ Definition rt_h3 (only_cached : bool) (e : env) (c : client) : option res :=
   | T3Conn => Some (Use V3, [], c)
   | T3Failed er => Some (Fail er, [], with_t3 T3None c)          (* dialErr: removeClient *)
   | T3Dialing => Some (Fail EDial, [], c)                        (* ctx.Done() while waiting on cl.dialing *)
-  | T3None =>
-      if only_cached then None else
-      let '(h, d) := h3_dial e c in
-      match h with
-      | HsOk _ => Some (Use V3, [d], with_t3 T3Conn c)
-      | HsFail EDial => Some (Fail EDial, [], with_t3 (T3Failed EDial) c)
-          (* nobody answers: the request's own deadline expires first (QUIC gives up after 10 s), RoundTripOpt
-             returns on ctx.Done() WITHOUT removeClient: the entry stays and hands its error to the next user *)
-      | HsFail er => Some (Fail er, [d], c)
-      end
+  | T3Dead =>
+      (* the round trip on the closed connection fails with the connection's error and removes the entry; a
+         replayable request on a reused connection is then tried once more on a new connection - unless only
+         cached connections may be used *)
+      if only_cached then Some (Fail ECert, [], with_t3 T3None c)
+      else Some (rt_h3_fresh e (with_t3 T3None c))
+  | T3None => if only_cached then None else Some (rt_h3_fresh e c)
   end.
 
 (* http2 Transport.RoundTripOpt with dialling (forced HTTP/2) *)
 Definition rt_h2_dial (e : env) (c : client) : res :=
   if negb (e_https e || c_allow_http c) then (Fail EScheme, [], c) else
   if c_t2 c then (Use V2, [], c) else
+  if negb (e_https e) && h2_plain_dial_for_http then
+    (* h2c: dialClientConn dials an http:// request without the TLS hooks *)
+    if s_h2c (e_srv e) then (Use V2, [], with_t2 true c) else (Fail EProto, [], c)
+  else
   if c_plain_dialtls c then
     (* dialTLS: DialTLSContext set -> that connection is used as is, no TLS, no ALPN check *)
     if negb (e_https e) && s_h2c (e_srv e) then (Use V2, [], with_t2 true c)
@@ -346,9 +366,15 @@ Definition do_bg (e : env) (c : client) : list dial * client :=
       match h with
       | HsOk _ => ([d], with_alt (APending true) false (with_t3 T3Conn c))
       | HsFail EDial => ([], with_alt (APending true) false (with_t3 T3Dialing c))
+      | HsFail ECert =>
+          if verify_ok (tls_view S3 false (e_host e) (c_tls c)) (e_srv e)
+          then (* only the client certificate is refused: the dial itself succeeds (the server's verdict arrives
+                  after the client's handshake is complete), AddConn reports success *)
+               ([d], with_alt (APending true) false (with_t3 T3Dead c))
+          else ([d], with_alt (APending true) false (with_t3 (T3Failed ECert) c))
       | HsFail er => ([d], with_alt (APending true) false (with_t3 (T3Failed er) c))
       end
-  | T3Conn | T3Dialing => ([], with_alt (APending true) false c)
+  | T3Conn | T3Dialing | T3Dead => ([], with_alt (APending true) false c)
   | T3Failed _ => ([], with_alt (APending false) false (with_t3 T3None c))   (* AddConn returns the dial error *)
   end.
 
@@ -377,8 +403,7 @@ Definition fork_apply (a : forkact) (c : client) : client :=
   | FkSName s => mutate (set_sname s) c
   | FkForce FH3 => with_force FH3 (with_h3 true c)
   | FkForce f => with_force f c
-  | FkH2C true => with_h2c true true c
-  | FkH2C false => with_h2c false false c
+  | FkH2C b => set_h2c b c
   | FkDialTLS o => with_udial o c
   | FkHandshake o => with_uhs o c
   end.
@@ -393,8 +418,7 @@ Definition step_gen (guard : bool) (e : env) (c : client) (o : op) : obs * clien
   | OForce FH3 => (ObsCfg, with_force FH3 (with_h3 true c))
   | OForce f => (ObsCfg, with_force f c)
   | OEnableH3 => (ObsCfg, with_h3 true c)
-  | OH2C true => (ObsCfg, with_h2c true true c)
-  | OH2C false => (ObsCfg, with_h2c false false c)
+  | OH2C b => (ObsCfg, set_h2c b c)
   | ODialTLS o => (ObsCfg, with_udial o c)
   | OHandshake o => (ObsCfg, with_uhs o c)
   | OClone => (ObsCfg, do_clone c)
